@@ -499,8 +499,11 @@ def main(argv=None):
     if extra:
         evidence["coverage"].update(extra(tier))
     if not args.target:
-        os.makedirs(os.path.join(VERIF, "evidence"), exist_ok=True)
-        with open(os.path.join(VERIF, "evidence", f"{pid}.json"), "w") as f:
+        # evidence/<ID>.json only ever describes a run against /repo itself; runs against another tree (BITS_REPO: scratch
+        # mutants, seeded changes) leave their evidence under out/
+        edir = os.path.join(VERIF, "evidence") if os.path.abspath(core.REPO) == "/repo" else os.path.join(VERIF, "out", "evidence-other-tree")
+        os.makedirs(edir, exist_ok=True)
+        with open(os.path.join(edir, f"{pid}.json"), "w") as f:
             json.dump(evidence, f, indent=1, default=str)
 
     # ---- report
